@@ -41,7 +41,7 @@ def run(ctx):
                           dict(rejected=fc.sample_events(traces[-1], 2, lambda e: e.get('ok') is False and not e['backend'] and e['cons'])),
                           dict(listing=fc.sample_events(traces[0], 2, lambda e: e['op'] == 'ListRepos' and len(e['cons']) > 2))]
     vlib.judge_traces(ctx, 'OciFilterTrace', 'OciFilterTrace.cfg', traces, shard_lines=1500 if quick else 6000, label='AccessChecker/Select vs OciFilter')
-    need = ['tree:ListRepos', 'tree:rejected', 'checker:listing-failed-with-name', 'select:listing-failed-with-name', 'checker:rejected', 'select:rejected', 'checker:MountBlob', 'checker:ListRepos', 'select:ListRepos', 'checker:Write', 'checker:Commit']
+    need = ['checker:scripted-listing', 'select:scripted-listing', 'checker:ill-formed-name', 'select:ill-formed-name', 'checker:backend-refused', 'tree:ListRepos', 'tree:rejected', 'checker:listing-failed-with-name', 'select:listing-failed-with-name', 'checker:rejected', 'select:rejected', 'checker:MountBlob', 'checker:ListRepos', 'select:ListRepos', 'checker:Write', 'checker:Commit']
     missing = [k for k in need if not ctx.cov['per_op'].get(k)]
     if missing:
         raise vlib.Machinery('the batch never exercised: %s' % ', '.join(missing))
